@@ -76,7 +76,12 @@ def gen(rng, tier, index):
         body = {"sleep": rng.choice([0, 0, 0.01]) if faults else 0,
                 "throw_first": faults and rng.random() < 0.35, "points": rng.choice([1, 2, 3]),
                 # the body BLOCKS on a promise that an independent task delivers (after a virtual delay or at once)
-                "gate": rng.choice([0, 0.01, 0.03]) if faults and rng.random() < 0.3 else None}
+                "gate": rng.choice([0, 0.01, 0.03]) if faults and rng.random() < 0.3 else None,
+                # the first run of the body derefs the delay ITSELF (once): a nested run on the same thread whose
+                # value every deref - the nested one included - must agree on
+                "self_deref": rng.random() < 0.12}
+        if body["self_deref"]:
+            body["throw_first"] = False
         return {"kind": "delay", "tasks": tasks, "body": body, "faults": faults}
     if kind == "promise":
         tasks = []
@@ -143,7 +148,7 @@ def shrink(workload):
                 yield w
     b = workload.get("body")
     if b:
-        for key, val in (("sleep", 0), ("throw_first", False), ("points", 1), ("gate", None)):
+        for key, val in (("sleep", 0), ("throw_first", False), ("points", 1), ("gate", None), ("self_deref", False)):
             if b.get(key) is not None and b.get(key) is not False and b.get(key) != val:
                 w = copy.deepcopy(workload)
                 w["body"][key] = val
@@ -178,7 +183,7 @@ def describe():
                  "runtime._deref_blocking", "real OS threads incl. pool workers (one runnable at a time)"],
         "stub": ["threading.Lock/RLock/Condition/Semaphore/Thread and queue.SimpleQueue under those classes (sim)",
                  "time.monotonic (virtual clock)", "OS scheduler (seeded baton kernel)"],
-        "fault_kinds": ["body_throw", "body_sleep", "body_blocks", "pre_sleep", "clock_jump", "pool_blocker", "timeout_fired",
+        "fault_kinds": ["body_throw", "body_sleep", "body_blocks", "body_derefs_own_delay", "pre_sleep", "clock_jump", "pool_blocker", "timeout_fired",
                         "cancel", "cancel_won"],
         "assumptions": ["sim Condition: no spurious wake-ups, FIFO notify (one legal behaviour)",
                         "virtual time advances only when nothing is runnable or by an injected forward jump"],
@@ -321,7 +326,7 @@ def _monotone(rec, kinds=("realized?", "future-done?")):
 def _run_delay(workload, k):
     rec = Rec(k)
     b = workload["body"]
-    st = {"active": 0, "n": 0, "max_active": 0, "threw_in": []}
+    st = {"active": {}, "n": 0, "max_active": 0, "threw_in": []}
 
     opener, gate_wait = _mk_gate(k, rec, b)
 
@@ -329,12 +334,17 @@ def _run_delay(workload, k):
         st["n"] += 1
         n = st["n"]
         me = k.cur.name
-        st["active"] += 1
-        st["max_active"] = max(st["max_active"], st["active"])
+        # "run by at most one thread at a time": count THREADS inside the body (a body that derefs its own delay
+        # nests a second run on the same thread)
+        st["active"][me] = st["active"].get(me, 0) + 1
+        st["max_active"] = max(st["max_active"], sum(1 for c in st["active"].values() if c > 0))
         rec.body.append(("start", k.ev("bstart", n), k.now, me, n))
         try:
             for _ in range(b["points"]):
                 P.point("body")
+            if b.get("self_deref") and n == 1:
+                rec.fault("body_derefs_own_delay")
+                rec.do("nested", me, "deref", {"op": "deref"}, lambda: _fns["deref"](d))
             if gate_wait:
                 gate_wait()
             if b["sleep"]:
@@ -347,7 +357,7 @@ def _run_delay(workload, k):
             rec.body.append(("end", k.ev("bend", n), k.now, me, n))
             return 100 + n
         finally:
-            st["active"] -= 1
+            st["active"][me] -= 1
 
     d = Delay(body)
 
